@@ -17,18 +17,18 @@ C08Prog(c) ==
 (* Initial marks.  Policy chains are only entered with the accept and drop bits clear (the endpoint
    chain returns as soon as accept is set, nothing survives a set drop bit) and, for policies, with the
    pass bit clear; profile chains can be entered with the pass bit set.  The two scratch bits are
-   arbitrary.                                                                                       *)
+   arbitrary; "all clear" and "all set" are the two values that expose a missing initialisation.      *)
 C08Marks(c) ==
     LET s0 == C08Bits(c, "s0")  s1 == C08Bits(c, "s1")  pass == C08Bits(c, "pass")
-    IN { {}, s0 \cup s1, s1, IF PSAction(c.rule) = "pass" THEN s0 ELSE s0 \cup pass }
+    IN { {}, s0 \cup s1 \cup (IF PSAction(c.rule) = "pass" THEN {} ELSE pass) }
 
-C08Verdict(c, P, p, m0) ==
+C08Verdict(c, P, p, m0, hit) ==
     LET res == RunChain(P, c.ksets, p @@ NfPktDefaults, "rule", m0)
         acc == C08Bits(c, "accept")   pass == C08Bits(c, "pass")
         keep == acc \cup pass \cup C08Bits(c, "drop")
         act == PSAction(c.rule)
         through == res.v = "ext" /\ res.t = "SENTINEL" /\ (res.st.mark \cap keep) = (m0 \cap keep)
-    IN IF RuleMatches(c.rule, p, c.ipsets)
+    IN IF hit
        THEN CASE act = "allow" -> res.v = "return" /\ acc \subseteq res.st.mark
               [] act = "pass"  -> res.v = "return" /\ pass \subseteq res.st.mark
               [] act = "deny"  -> res.v = c.deny
@@ -41,26 +41,29 @@ C08CaseOK(c) ==
            probes == RuleProbes(c.rule, c.ipv, c.ipsets)
            marks == C08Marks(c)
        IN /\ NfWellFormed(P, c.ksets)
-          /\ \A p \in probes : \A m0 \in marks : C08Verdict(c, P, p, m0)
+          /\ \A p \in probes : LET hit == RuleMatches(c.rule, p, c.ipsets) IN \A m0 \in marks : C08Verdict(c, P, p, m0, hit)
           /\ PrintT(<<"NPROBE", Cardinality(probes), Cardinality(marks),
-                      Cardinality({ p \in probes : RuleMatches(c.rule, p, c.ipsets) })>>)
+                      Cardinality({ p \in probes : RuleMatches(c.rule, p, c.ipsets) }), c.t>>)
 
 TInit == l = 1
-TCase == IsEvent("reset") /\ C08CaseOK(Cur)
+\* every case is consumed; a case the property rejects is reported (the orchestrator re-executes it and asks
+\* for the diagnosis below before it reports anything)
+TCase == IsEvent("reset") /\ IF C08CaseOK(Cur) THEN TRUE ELSE PrintT(<<"REJECT", Cur.t>>)
 TNext == TCase
-TSpec == TInit /\ [][TNext]_l
 
-\* ---- diagnosis of one rejected case (trace file holding only that case) -----------------------------
+\* ---- diagnosis / classification of (re-executed) rejected cases ---------------------------------------
 C08Diag(c) ==
-    IF c.panic # "" THEN <<"renderer panicked", c.panic>>
+    IF c.panic # "" THEN <<"CLASS", "panic", c.panic>>
     ELSE LET P == C08Prog(c)
-             bad == { pm \in RuleProbes(c.rule, c.ipv, c.ipsets) \X C08Marks(c) : ~C08Verdict(c, P, pm[1], pm[2]) }
+             bad == { pm \in RuleProbes(c.rule, c.ipv, c.ipsets) \X C08Marks(c) :
+                         ~C08Verdict(c, P, pm[1], pm[2], RuleMatches(c.rule, pm[1], c.ipsets)) }
              one == CHOOSE pm \in bad : TRUE
              res == RunChain(P, c.ksets, one[1] @@ NfPktDefaults, "rule", one[2])
-         IN IF ~NfWellFormed(P, c.ksets) THEN <<"kernel would refuse the program">>
-            ELSE IF bad = {} THEN <<"no failing probe">>
-            ELSE <<"failing probes", Cardinality(bad), "packet", one[1], "mark0", one[2],
-                   "matches", RuleMatches(c.rule, one[1], c.ipsets), "result", res.v, res.t, res.st.mark>>
-DInit == l = 1 /\ PrintT(<<"DIAG", C08Diag(Trace[1])>>)
-DNext == FALSE /\ l' = l
+         IN IF ~NfWellFormed(P, c.ksets) THEN <<"CLASS", "refused", NfRefusals(P, c.ksets)>>
+            ELSE IF bad = {} THEN <<"CLASS", "none">>
+            ELSE <<"CLASS", "verdict", PSAction(c.rule), IF RuleMatches(c.rule, one[1], c.ipsets) THEN "hit" ELSE "miss",
+                   "failing probes", Cardinality(bad), "packet", one[1], "mark0", one[2],
+                   "result", res.v, res.t, res.st.mark>>
+DCase == IsEvent("reset") /\ PrintT(<<"DIAG", Cur.t, C08Diag(Cur)>>)
+DNext == DCase
 =============================================================================
